@@ -4,6 +4,8 @@ import RsslVerif.Gen.Reserved
 import RsslVerif.Lemmas.Names
 import RsslVerif.Lemmas.NamesTables
 import RsslVerif.Lemmas.NamesOrder
+import RsslVerif.Model.NamesEmit
+import RsslVerif.Lemmas.NamesEmit
 /-!
 # C15 — renaming is harmless and emitted names are hygienic: theorems about the model of `NameMap::build`
 
@@ -424,5 +426,124 @@ theorem scope_loop_terminates (used : List String) (n : String) :
   obtain ⟨c, hc⟩ := firstFree_total used n
   obtain ⟨j, _, hj, _⟩ := firstFree_is_cand _ _ hc
   exact ⟨c, hc, firstFree_not_mem _ _ hc, j, hj⟩
+
+/-! ## the emitted program: how the exporters consume the map (`Model/NamesEmit.lean`) -/
+
+section Emitted
+open RsslVerif.Model.NamesEmit RsslVerif.Lemmas.NamesEmit
+
+theorem nodup_map_inj {α β : Type} {f : α → β} : ∀ {l : List α}, (l.map f).Nodup →
+    ∀ {a b : α}, a ∈ l → b ∈ l → f a = f b → a = b := by
+  intro l
+  induction l with
+  | nil => intro _ a b ha; simp at ha
+  | cons x r ih =>
+    intro hn a b ha hb e
+    rw [List.map_cons, List.nodup_cons] at hn
+    rcases List.mem_cons.mp ha with ha1 | ha1
+    · rcases List.mem_cons.mp hb with hb1 | hb1
+      · rw [ha1, hb1]
+      · subst ha1; exact absurd (show f a ∈ r.map f from List.mem_map.mpr ⟨b, hb1, e.symm⟩) hn.1
+    · rcases List.mem_cons.mp hb with hb1 | hb1
+      · subst hb1; exact absurd (show f b ∈ r.map f from List.mem_map.mpr ⟨a, ha1, e⟩) hn.1
+      · exact ih hn.2 ha1 hb1 e
+
+theorem lookup_mem {names : List Named} {s : Sym} {x : Named} (h : lookup names s = some x) :
+    x ∈ names ∧ x.sym = s := by
+  unfold lookup at h
+  have h2 := List.find?_some h
+  exact ⟨List.mem_of_find?_eq_some h, by simpa using h2⟩
+
+/-- a struct / enum / enum value / global / function named by `build` is an entry of the registries, in the scope the
+name is given in -/
+theorem named_entry {reserved : List String} {inp : Input} {names : List Named}
+    (h : build reserved inp = .ok names) {x : Named} (hx : x ∈ names)
+    (hk : x.sym.kind ≠ .localVar) (hk2 : x.sym.kind ≠ .ns) :
+    ∃ e ∈ inp.entries, e.sym = x.sym ∧ e.scope = x.scope := by
+  obtain ⟨scopes, ls, hs, hl, rfl⟩ := build_ok h
+  rcases List.mem_append.mp hx with h1 | h1
+  · obtain ⟨p, hp, hx'⟩ := List.mem_flatMap.mp h1
+    obtain ⟨q, hq, rfl⟩ := List.mem_map.mp hx'
+    have hp1 : p.1 ∈ scopeIds inp := by
+      have := (runScopes_spec _ hs).1
+      rw [← this]; exact List.mem_map.mpr ⟨p, hp, rfl⟩
+    obtain ⟨st, hst, hrun⟩ := runScopes_mem _ hs p.1 hp1
+    have hpw : (scopes.map (·.1)).Pairwise (· ≠ ·) := (runScopes_spec _ hs).1 ▸ scopeIds_pairwise inp
+    have hpe : p = (p.1, st) := eq_of_fst_eq hpw p hp (p.1, st) hst rfl
+    have hq' : q ∈ st.out := by rw [hpe] at hq; exact hq
+    obtain ⟨r, hr, er⟩ := scopeRun_out_syms hrun q hq'
+    unfold scopeSyms at hr
+    rcases List.mem_append.mp hr with h2 | h2
+    · have := nsFrom_kind _ _ _ _ h2
+      rw [er] at this
+      exact absurd this hk2
+    · obtain ⟨en, hen, rfl⟩ := List.mem_map.mp h2
+      have hf := List.mem_filter.mp hen
+      refine ⟨en, hf.1, er, ?_⟩
+      simpa using hf.2
+  · exact absurd (number_kind ls 0 x h1).1 hk
+
+/-- **emitted_never_reserved** (lift of `never_reserved` to the emitted program, full for the modelled declaration
+kinds): every declaration the model of the exporters emits for an entity of the name map — struct, enum, enum value,
+global (file scope, threaded Metal parameter, wrapper local, argument-buffer / inline-descriptor member), function,
+method, parameter, local — is printed under a name that is not in the reserved list, on all four target
+configurations.  (Namespace blocks are printed with a component of `get_name_qualified`; struct members, cbuffer
+blocks and cbuffer members do not go through the map: `member_reserved_witness`, `cbuffer_reserved_witness`.) -/
+theorem emitted_never_reserved {t : Target} {reserved : List String} {p : Program} {names : List Named}
+    (h : build reserved (namesInput t p) = .ok names) {sc : Scope} {k n : String} {s : Sym}
+    (htok : Tok.decl sc k n (.sym s) ∈ emit t names p) (hk : k ≠ "N") (hs : (lookup names s).isSome) :
+    n ∉ reserved := by
+  have hok := emit_decl_ok t names p _ htok
+  simp only [DeclOk] at hok
+  rcases hok with hok | hok
+  · exact absurd hok hk
+  · obtain ⟨x, hx⟩ := Option.isSome_iff_exists.mp hs
+    have : n = x.name := by rw [hok]; simp [leaf, hx]
+    rw [this]
+    exact never_reserved h x (lookup_mem hx).1
+
+/-- **emitted_injective_file_scope** (lift of `injective_per_scope`): two file-scope declarations of the emitted program
+that sit in the same namespace block and declare different structs / enums / globals / functions carry different
+names.  `hnodup`: every symbol has one registry entry (ordinals are unique). -/
+theorem emitted_injective_file_scope {t : Target} {reserved : List String} {p : Program} {names : List Named}
+    (h : build reserved (namesInput t p) = .ok names)
+    (hnodup : ((namesInput t p).entries.map (·.sym)).Nodup)
+    {ns : Option Nat} {ka na kb nb : String} {sa sb : Sym}
+    (ha : Tok.decl (.file ns) ka na (.sym sa) ∈ emit t names p)
+    (hb : Tok.decl (.file ns) kb nb (.sym sb) ∈ emit t names p)
+    (hka : ka ≠ "N") (hkb : kb ≠ "N")
+    (hsa : (lookup names sa).isSome) (hsb : (lookup names sb).isSome)
+    (hla : sa.kind ≠ .localVar ∧ sa.kind ≠ .ns) (hlb : sb.kind ≠ .localVar ∧ sb.kind ≠ .ns)
+    (hne : sa ≠ sb) : na ≠ nb := by
+  obtain ⟨xa, hxa⟩ := Option.isSome_iff_exists.mp hsa
+  obtain ⟨xb, hxb⟩ := Option.isSome_iff_exists.mp hsb
+  obtain ⟨hma, hea⟩ := lookup_mem hxa
+  obtain ⟨hmb, heb⟩ := lookup_mem hxb
+  have scope_of : ∀ {k n : String} {s : Sym} {x : Named}, Tok.decl (.file ns) k n (.sym s) ∈ emit t names p →
+      k ≠ "N" → x ∈ names → x.sym = s → s.kind ≠ .localVar ∧ s.kind ≠ .ns → x.scope = ns := by
+    intro k n s x htok hk hm he hl
+    have hf := emit_file_ok t names p _ htok
+    simp only [FileOk] at hf
+    rcases hf with hf | ⟨e, hem, hes, hesc⟩
+    · exact absurd hf hk
+    · obtain ⟨e', hem', hes', hesc'⟩ := named_entry h hm (he ▸ hl.1) (he ▸ hl.2)
+      have : e = e' := by
+        exact nodup_map_inj hnodup hem hem' (by rw [hes, hes', he])
+      rw [← hesc', ← this, hesc]
+  have hsca := scope_of ha hka hma hea hla
+  have hscb := scope_of hb hkb hmb heb hlb
+  have hna : na = xa.name := by
+    rcases (emit_decl_ok t names p _ ha) with h1 | h1
+    · exact absurd h1 hka
+    · rw [h1]; simp [leaf, hxa]
+  have hnb : nb = xb.name := by
+    rcases (emit_decl_ok t names p _ hb) with h1 | h1
+    · exact absurd h1 hkb
+    · rw [h1]; simp [leaf, hxb]
+  rw [hna, hnb]
+  exact injective_per_scope h xa hma xb hmb (hea ▸ hla.1) (heb ▸ hlb.1) (hsca.trans hscb.symm)
+    (by rw [hea, heb]; exact hne)
+
+end Emitted
 
 end RsslVerif.Thm.C15
